@@ -333,6 +333,40 @@ def who(ctx):
                 ok = f.name == "unlock" and f.rec == GUARD and op["op"] == "store"
                 ctx.ob(rid, ok, f.loc(op["st"]), "owner is cleared only by rcu_guard::unlock", "" if ok else
                        "%s in %s" % (op["name"], f.name), fn=f.label, inst=f.qname)
+        # a node belongs to the list whose reclamation log will one day carry its record: no operation moves node
+        # pointers from one list OBJECT into the links of another (swap / splice / move that leaves the logs behind
+        # makes a node erasable through a list whose log the node's readers are not registered in)
+        others = {"p:" + pd["name"] for pd in f.params
+                  if re.match(r"^(const )?(gmlc::libguarded::)?rcu_list(<.*>)? ?&&?$", pd.get("type", "").strip())
+                  and ">::" not in pd.get("type", "")} if f.rec == RCU else set()
+        if others:
+            for op in atomic_ops(f):
+                if op["op"] != "store" or op.get("value") is None:
+                    continue
+                fld = atomic_field_of(f, op)
+                if fld is None or fld[1] not in ("m_head", "m_tail", "next", "back"):
+                    continue
+                vp = path(f, op["value"]) or ""
+                src_other = any(vp == o or vp.startswith(o + ".") or vp.startswith(o + "->") for o in others)
+                if not src_other:
+                    # through a local that was loaded from the other list
+                    ve = unwrap(f, op["value"])
+                    if ve is not None and ve["k"] == "DeclRefExpr" and ve["d"].get("k") == "local":
+                        for s2 in f.stmts.values():
+                            if s2["k"] == "DeclStmt":
+                                for dd in s2["decls"]:
+                                    if dd["id"] == ve["d"].get("id") and dd.get("init"):
+                                        ip = path(f, f.s(dd["init"])) or ""
+                                        src_other = any(ip.startswith(o + ".") or ip.startswith(o + "->") for o in others)
+                dst_other = any((op["obj"] or "").startswith(o + ".") or (op["obj"] or "").startswith(o + "->") for o in others)
+                ok = not (src_other != dst_other) and not (src_other and dst_other and False)
+                if src_other or dst_other:
+                    ctx.ob(rid, src_other == dst_other and not src_other, f.loc(op["st"]),
+                           "%s keeps every node in the list (and reclamation log) it was inserted into" % f.name,
+                           "node pointers move between two list objects (%s <- %s) while each list keeps its own log of "
+                           "registered readers and retired nodes: a node erased through its new list is freed without regard to "
+                           "the readers registered in the old one" % (op["obj"], vp or "a value loaded from the other list"),
+                           fn=f.label, inst=f.qname)
         for st in f.stmts.values():
             if st["k"] == "CallExpr" and re.match(r"^std::allocator_traits<.*>::(destroy|deallocate)$", callee_fq(st)):
                 ok = (f.name == "unlock" and f.rec == GUARD) or (f.kind == "dtor" and f.rec == RCU) or \
